@@ -145,7 +145,9 @@ def direction1(run, quick, rng):
                     tree.update({('w/%02d/n%03d.dat' % (i % 7, i)): rng.randbytes(rng.choice([0, 3, 17, 40])) for i in range(420)})
                 harness.write_tree(d / 'src', tree)
                 for u in users:
-                    o = w.snapshot(u, [d / 'src'], note=rng.choice([None, 'a note']), backend=w.backend(gate=repodrv.DelayPrefix('data/', 0.003)))
+                    # the tree, plus things inside it given again as arguments of their own (a file reached twice must be recorded once)
+                    paths = [d / 'src'] + ([d / 'src' / 'f0.bin', d / 'src' / 'image.raw'] if u == users[-1] else [])
+                    o = w.snapshot(u, paths, note=rng.choice([None, 'a note']), backend=w.backend(gate=repodrv.DelayPrefix('data/', 0.003)))
                     if not o.ok:
                         raise tlc.MachineryError('snapshot failed in C14 driver: %r' % o.exc)
                 config = refcodec.loads(store.objs['config'])
@@ -170,6 +172,7 @@ def direction1(run, quick, rng):
                     evs = decode_all(store.objs, keys, key_files, cfg['enc'])
                 traces.append({'encrypted': bool(cfg['enc']), 'cfg': {k: v for k, v in cfg.items()}, 'events': evs})
                 run.case(('d1', gi, rep), nontrivial=len(evs) > 3)
+    traces += big_chunks(run, rng)
     verdicts, res = tlc.validate_traces('FormatTrace', 'Trace_Repo.cfg', traces)
     for tid, v in sorted(verdicts.items()):
         if v[1] != 'ok':
@@ -178,6 +181,28 @@ def direction1(run, quick, rng):
     run.add(programs=len(traces), objects_decoded=sum(len(t['events']) for t in traces))
     run.sample({'direction': 'replicat writes / independent reader', 'cfg': traces[0]['cfg'], 'events': traces[0]['events'][:6]})
     return len(traces)
+
+
+def big_chunks(run, rng):
+    """the default chunker on low-entropy data: chunks of exactly max_length (5.12 MB) - single encryptions and hashes of more than 4 MiB
+    must still be what the documentation says (one nonce | one AEAD ciphertext; the digest of the whole chunk)"""
+    traces = []
+    for enc in (True, False):
+        with harness.scratch() as d:
+            store = membackend.Store()
+            w = harness.World(store=store, concurrent=2)
+            w.init('a', b'pw-a', harness.settings(encrypted=enc))
+            harness.write_tree(d / 'src', {'zeros.img': bytes(11_000_000), 'tail.bin': rng.randbytes(70_000)})
+            o = w.snapshot('a', [d / 'src'])
+            if not o.ok:
+                raise tlc.MachineryError('snapshot failed in C14 driver: %r' % o.exc)
+            config = refcodec.loads(store.objs['config'])
+            key_files = {'a': (w.users['a'].key, w.users['a'].password)} if w.users['a'].key else {}
+            keys = {'a': refcodec.Keys(config, w.users['a'].key, w.users['a'].password)}
+            evs = decode_all(store.objs, keys, key_files, enc)
+            traces.append({'encrypted': enc, 'cfg': {'chunker': 'default', 'data': '11 MB of zeros'}, 'events': evs})
+            run.case(('d1-big-chunks', enc))
+    return traces
 
 
 def direction2(run, quick, rng):
